@@ -589,6 +589,28 @@ fn source_kind(e: &syn::Expr) -> SourceKind {
     }
 }
 
+/// condition (spaces removed) and message of an `assert!(cond, "msg")` invocation
+fn split_assert(mac: &syn::Macro) -> (String, String) {
+    let v: Vec<proc_macro2::TokenTree> = mac.tokens.clone().into_iter().collect();
+    // split at the last top-level comma
+    let mut split = None;
+    for (i, t) in v.iter().enumerate() {
+        if let proc_macro2::TokenTree::Punct(p) = t {
+            if p.as_char() == ',' {
+                split = Some(i);
+            }
+        }
+    }
+    match split {
+        Some(i) => {
+            let c: TokenStream = v[..i].iter().cloned().collect();
+            let m: TokenStream = v[i + 1..].iter().cloned().collect();
+            (c.to_string().replace(' ', ""), syn::parse2::<syn::LitStr>(m).map(|l| l.value()).unwrap_or_default())
+        }
+        None => (v.iter().cloned().collect::<TokenStream>().to_string().replace(' ', ""), String::new()),
+    }
+}
+
 fn read_items(items: &[syn::Item], out: &mut Out) {
     for it in items {
         match it {
@@ -600,31 +622,38 @@ fn read_items(items: &[syn::Item], out: &mut Out) {
                 let name = idn(&c.ident);
                 out.items.push(ItemInfo { kind: "const", name: name.clone(), lines: lines_of(c.span()) });
                 if name == "_" {
-                    // const _: () = assert!(cond, "msg");
-                    if let syn::Expr::Macro(m) = &*c.expr {
-                        if m.mac.path.is_ident("assert") {
-                            let toks: TokenStream = m.mac.tokens.clone();
-                            // split at the last top-level comma
-                            let v: Vec<proc_macro2::TokenTree> = toks.into_iter().collect();
-                            let mut split = None;
-                            for (i, t) in v.iter().enumerate() {
-                                if let proc_macro2::TokenTree::Punct(p) = t {
-                                    if p.as_char() == ',' {
-                                        split = Some(i);
-                                    }
-                                }
-                            }
-                            let (cond, msg) = match split {
-                                Some(i) => {
-                                    let c: TokenStream = v[..i].iter().cloned().collect();
-                                    let m: TokenStream = v[i + 1..].iter().cloned().collect();
-                                    (c.to_string().replace(' ', ""), syn::parse2::<syn::LitStr>(m).map(|l| l.value()).unwrap_or_default())
-                                }
-                                None => (v.iter().cloned().collect::<TokenStream>().to_string().replace(' ', ""), String::new()),
-                            };
+                    // const _: () = assert!(cond, "msg");   (also path-qualified: ::core::assert!)
+                    // const _: () = { assert!(..); assert!(..); };
+                    let is_assert = |m: &syn::Macro| m.path.segments.last().map(|s| s.ident == "assert").unwrap_or(false);
+                    match &*c.expr {
+                        syn::Expr::Macro(m) if is_assert(&m.mac) => {
+                            let (cond, msg) = split_assert(&m.mac);
                             out.asserts.push(OutAssert { cond, message: msg, lines: lines_of(c.span()) });
                             continue;
                         }
+                        syn::Expr::Block(b) => {
+                            let mut n = 0;
+                            for st in &b.block.stmts {
+                                let mac = match st {
+                                    syn::Stmt::Macro(sm) => Some((&sm.mac, lines_of(sm.span()))),
+                                    syn::Stmt::Expr(syn::Expr::Macro(em), _) => Some((&em.mac, lines_of(em.span()))),
+                                    _ => None,
+                                };
+                                if let Some((mac, lines)) = mac {
+                                    if is_assert(mac) {
+                                        let (cond, msg) = split_assert(mac);
+                                        // the span of the whole item: what is cut out or attributed is the item
+                                        let _ = lines;
+                                        out.asserts.push(OutAssert { cond, message: msg, lines: lines_of(c.span()) });
+                                        n += 1;
+                                    }
+                                }
+                            }
+                            if n > 0 {
+                                continue;
+                            }
+                        }
+                        _ => {}
                     }
                 }
                 if name == "SOURCE" {
